@@ -135,29 +135,38 @@ Inductive Reach (st : state) : nat -> nat -> Prop :=
 | Reach_step : forall o ob k c t, get st o = Some ob -> In (k, VRef c) (oattrs ob) -> Reach st c t -> Reach st o t.
 
 (* st' has the same composition as st on everything reachable from o *)
-Definition agree (st st' : state) (o : nat) : Prop := forall t, Reach st o t -> comp_at st' t = comp_at st t.
+(* priors hanging directly on objects reachable from o *)
+Definition holds_prior (st : state) (o p : nat) : Prop :=
+  exists t ob k, Reach st o t /\ get st t = Some ob /\ In (k, VPrior p) (oattrs ob).
+Definition agree (st st' : state) (o : nat) : Prop :=
+  (forall t, Reach st o t -> comp_at st' t = comp_at st t) /\
+  (forall p, holds_prior st o p -> pid_of st' p = pid_of st p).
 
 Lemma agree_child : forall st st' o ob k c, agree st st' o -> get st o = Some ob -> In (k, VRef c) (oattrs ob) -> agree st st' c.
-Proof. intros st st' o ob k c H G I t R. apply H. now apply (Reach_step st o ob k c). Qed.
+Proof.
+  intros st st' o ob k c [H1 H2] G I. split.
+  - intros t R. apply H1. now apply (Reach_step st o ob k c).
+  - intros p (t & tb & kk & R & Gt & It). apply H2. exists t, tb, kk. split; auto. now apply (Reach_step st o ob k c).
+Qed.
 
 Lemma agree_get : forall st st' o ob, agree st st' o -> get st o = Some ob ->
   exists ob', get st' o = Some ob' /\ okind ob' = okind ob /\ oattrs ob' = oattrs ob.
 Proof.
-  intros st st' o ob H G. pose proof (H o (Reach_refl st o)) as E. unfold comp_at in E. rewrite G in E.
+  intros st st' o ob [H _] G. pose proof (H o (Reach_refl st o)) as E. unfold comp_at in E. rewrite G in E.
   destruct (get st' o) as [ob'|]; [|discriminate]. exists ob'. injection E as E1 E2 E3. auto.
 Qed.
 
 Lemma agree_none : forall st st' o, agree st st' o -> get st o = None -> get st' o = None.
 Proof.
-  intros st st' o H G. pose proof (H o (Reach_refl st o)) as E. unfold comp_at in E. rewrite G in E.
+  intros st st' o [H _] G. pose proof (H o (Reach_refl st o)) as E. unfold comp_at in E. rewrite G in E.
   destruct (get st' o); [discriminate|reflexivity].
 Qed.
 
 Lemma walk_val_local : forall st st', inflight st' = inflight st ->
-  forall n s o, agree st st' o -> walk_val st' n s (VRef o) = walk_val st n s (VRef o).
+  forall n s vis o, agree st st' o -> walk_val st' n s vis (VRef o) = walk_val st n s vis (VRef o).
 Proof.
-  intros st st' Hi n. induction n as [|n IH]; intros s o A; simpl; rewrite Hi; auto.
-  destruct (memb o (inflight st)); auto.
+  intros st st' Hi n. induction n as [|n IH]; intros s vis o A; simpl; rewrite Hi; auto.
+  destruct (memb o (inflight st) || memb o vis); auto.
   destruct (get st o) as [ob|] eqn:G.
   - destruct (agree_get _ _ _ _ A G) as (ob' & G' & K & At). rewrite G', K, At.
     destruct (sel_obj s (okind ob)); auto. f_equal. f_equal. apply walk_list_ext.
@@ -177,12 +186,12 @@ Proof.
   - destruct (IH it H) as (k' & v' & items' & p' & I1 & I2 & I3). exists k', v', items', p'. split; [now right|]. auto.
 Qed.
 
-Lemma walk_models_reach : forall st n o l it, walk_val st n SModelRec (VRef o) = WList l -> In it l ->
+Lemma walk_models_reach : forall st n vis o l it, walk_val st n SModelRec vis (VRef o) = WList l -> In it l ->
   exists c, snd it = LObj c /\ Reach st o c.
 Proof.
-  intros st n. induction n as [|n IH]; intros o l it W Hin; simpl in W.
-  - destruct (memb o (inflight st)); [discriminate|]. injection W as <-. contradiction.
-  - destruct (memb o (inflight st)); [discriminate|].
+  intros st n. induction n as [|n IH]; intros vis o l it W Hin; simpl in W.
+  - destruct (memb o (inflight st) || memb o vis); [discriminate|]. injection W as <-. contradiction.
+  - destruct (memb o (inflight st) || memb o vis); [discriminate|].
     destruct (get st o) as [ob|] eqn:G; [|injection W as <-; contradiction].
     assert (Hs : sel_obj SModelRec (okind ob) = false) by (destruct (okind ob); reflexivity).
     try rewrite Hs in W. injection W as <-. apply in_app_or in Hin as [Hin|Hin].
@@ -192,8 +201,31 @@ Proof.
       destruct v as [pp|cc|c].
       * destruct n; simpl in I2; injection I2 as <-; contradiction.
       * destruct n; simpl in I2; injection I2 as <-; contradiction.
-      * destruct (IH c items (p, snd it) I2 I3) as (c' & E & R). exists c'. split; auto.
+      * destruct (IH (o :: vis) c items (p, snd it) I2 I3) as (c' & E & R). exists c'. split; auto.
         now apply (Reach_step st o ob k c).
+Qed.
+
+(* every prior leaf of a walk hangs on an object reachable from the receiver *)
+Lemma walk_priors_held : forall st n s vis o l it p, walk_val st n s vis (VRef o) = WList l -> In it l ->
+  snd it = LPrior p -> holds_prior st o p.
+Proof.
+  intros st n. induction n as [|n IH]; intros s vis o l it p W Hin E; simpl in W.
+  - destruct (memb o (inflight st) || memb o vis); [discriminate|]. injection W as <-. contradiction.
+  - destruct (memb o (inflight st) || memb o vis); [discriminate|].
+    destruct (get st o) as [ob|] eqn:G; [|injection W as <-; contradiction].
+    destruct (sel_obj s (okind ob)).
+    + injection W as <-. destruct Hin as [<-|[]]. discriminate.
+    + injection W as <-. apply in_app_or in Hin as [Hin|Hin].
+      * destruct (sel_also s (okind ob)); [|contradiction]. destruct Hin as [<-|[]]. discriminate.
+      * destruct (walk_list_in _ _ _ Hin) as (k & v & items & pp & I1 & I2 & I3).
+        destruct v as [q|cc|c].
+        -- destruct n; simpl in I2; injection I2 as <-; (destruct (sel_prior s); [|contradiction]);
+             destruct I3 as [I3|[]]; injection I3 as _ I3; rewrite E in I3; injection I3 as <-;
+             exists o, ob, k; (split; [apply Reach_refl|split; auto]).
+        -- destruct n; simpl in I2; injection I2 as <-; (destruct (sel_float s); [|contradiction]);
+             destruct I3 as [I3|[]]; injection I3 as _ I3; rewrite E in I3; discriminate.
+        -- destruct (IH s (o :: vis) c items (pp, snd it) p I2 I3 E) as (t & tb & kk & R & Gt & It).
+           exists t, tb, kk. split; auto. now apply (Reach_step st o ob k c).
 Qed.
 
 Local Opaque walk_val.
@@ -216,8 +248,93 @@ Qed.
 
 Lemma agree_trans_reach : forall st st' o c, agree st st' o -> Reach st o c -> agree st st' c.
 Proof.
-  intros st st' o c A R t Rt. apply A. clear A. induction R as [o|o ob k c0 c G I R IH]; auto.
-  apply (Reach_step st o ob k c0); auto.
+  intros st st' o c A R. induction R as [o|o ob k c0 c G I R IH]; auto.
+  apply IH. now apply (agree_child st st' o ob k c0).
+Qed.
+
+(* dedup / sort depend on the id function only through the priors they see *)
+Definition ids_agree (idf idf' : nat -> nat) (l : list item) : Prop :=
+  forall it p, In it l -> snd it = LPrior p -> idf' p = idf p.
+
+Lemma leaf_same_ext : forall idf idf' a b, (forall p, a = LPrior p -> idf' p = idf p) ->
+  (forall p, b = LPrior p -> idf' p = idf p) -> leaf_same idf' a b = leaf_same idf a b.
+Proof.
+  intros idf idf' a b Ha Hb. destruct a as [p|c|o], b as [q|d|o']; simpl; try reflexivity.
+  rewrite (Ha p eq_refl), (Hb q eq_refl). reflexivity.
+Qed.
+
+Lemma dict_put_ext : forall idf idf' it d, ids_agree idf idf' (it :: d) ->
+  dict_put idf' it d = dict_put idf it d /\ (forall x, In x (dict_put idf it d) -> In x (it :: d)).
+Proof.
+  intros idf idf' it d. induction d as [|y d IH]; intros H; simpl.
+  - split; auto.
+  - rewrite (leaf_same_ext idf idf' (snd it) (snd y)).
+    2:{ intros p E. apply (H it p); auto. now left. }
+    2:{ intros p E. apply (H y p); auto. right. now left. }
+    destruct (leaf_same idf (snd it) (snd y)).
+    + split; auto. intros x [<-|Hx]; [left; now destruct it|right; now right].
+    + destruct IH as [E1 E2].
+      { intros x p Hx. apply H. destruct Hx as [<-|Hx]; [now left|right; now right]. }
+      rewrite E1. split; auto. intros x [<-|Hx]; [right; now left|].
+      destruct (E2 x Hx) as [<-|Hd]; [now left|right; now right].
+Qed.
+
+Lemma dedup_last_ext : forall idf idf' l, ids_agree idf idf' l -> dedup_last idf' l = dedup_last idf l.
+Proof.
+  intros idf idf' l H. unfold dedup_last.
+  assert (G : forall l acc, ids_agree idf idf' (l ++ acc) ->
+              fold_left (fun d it => dict_put idf' it d) l acc = fold_left (fun d it => dict_put idf it d) l acc).
+  { clear l H. induction l as [|x l IH]; intros acc H; simpl; auto.
+    destruct (dict_put_ext idf idf' x acc) as [E1 E2].
+    { intros y p Hy. apply H. simpl. destruct Hy as [<-|Hy]; [now left|right; apply in_or_app; now right]. }
+    rewrite E1. apply IH. intros y p Hy. apply H. apply in_app_or in Hy as [Hy|Hy].
+    - right. apply in_or_app. now left.
+    - destruct (E2 y Hy) as [<-|Hd]; [now left|right; apply in_or_app; now right]. }
+  apply G. now rewrite app_nil_r.
+Qed.
+
+Lemma insert_by_ext : forall {A} (le le' : A -> A -> bool) x l, (forall y, In y l -> le' y x = le y x) ->
+  insert_by le' x l = insert_by le x l.
+Proof.
+  induction l as [|y l IH]; intros H; simpl; auto.
+  rewrite (H y) by (now left). destruct (le y x); auto. f_equal. apply IH. intros z Hz. apply H. now right.
+Qed.
+
+Lemma insert_by_in : forall {A} (le : A -> A -> bool) x l z, In z (insert_by le x l) -> z = x \/ In z l.
+Proof.
+  induction l as [|y l IH]; intros z H; simpl in H.
+  - destruct H as [<-|[]]. now left.
+  - destruct (le y x).
+    + destruct H as [<-|H]; [right; now left|]. destruct (IH z H); auto. right. now right.
+    + destruct H as [<-|H]; auto.
+Qed.
+
+Lemma sort_by_ext : forall {A} (le le' : A -> A -> bool) l, (forall x y, In x l -> In y l -> le' y x = le y x) ->
+  sort_by le' l = sort_by le l.
+Proof.
+  intros A le le' l H. unfold sort_by.
+  assert (G : forall l acc, (forall x y, In x (l ++ acc) -> In y (l ++ acc) -> le' y x = le y x) ->
+              fold_left (fun a x => insert_by le' x a) l acc = fold_left (fun a x => insert_by le x a) l acc).
+  { clear l H. induction l as [|x l IH]; intros acc H; simpl; auto.
+    rewrite (insert_by_ext le le' x acc).
+    2:{ intros y Hy. apply H; [now left|right; apply in_or_app; now right]. }
+    apply IH. intros a b Ha Hb. apply H.
+    - apply in_app_or in Ha as [Ha|Ha]; [right; apply in_or_app; now left|].
+      destruct (insert_by_in le x acc a Ha) as [->|Hd]; [now left|right; apply in_or_app; now right].
+    - apply in_app_or in Hb as [Hb|Hb]; [right; apply in_or_app; now left|].
+      destruct (insert_by_in le x acc b Hb) as [->|Hd]; [now left|right; apply in_or_app; now right]. }
+  apply G. now rewrite app_nil_r.
+Qed.
+
+Lemma dedup_last_in : forall idf l x, In x (dedup_last idf l) -> In x l.
+Proof.
+  intros idf l x. unfold dedup_last.
+  assert (G : forall m acc, In x (fold_left (fun d it => dict_put idf it d) m acc) -> In x m \/ In x acc).
+  { induction m as [|y m IH]; intros acc H; simpl in *; auto.
+    destruct (IH _ H) as [H1|H1]; auto.
+    destruct (dict_put_ext idf idf y acc (fun _ _ _ _ => eq_refl)) as [_ E2].
+    destruct (E2 x H1) as [<-|Hd]; auto. }
+  intros H. destruct (G l [] H) as [|[]]; auto.
 Qed.
 
 Lemma has_obj_local : forall st st' o, agree st st' o -> has_obj st' o = has_obj st o.
@@ -233,10 +350,32 @@ Section Local.
 
   Lemma p_pit_local : forall o s, agree st st' o -> p_pit st' o s = p_pit st o s.
   Proof. intros o s A. unfold p_pit, walk_top. now rewrite (has_obj_local st st' o A), (walk_val_local st st' Hi). Qed.
+
+  (* the priors in the attribute list of o are held below o *)
+  Lemma p_attr_priors : forall o s l it p, p_attr st o s = Ok (CList l) -> In it l -> snd it = LPrior p -> holds_prior st o p.
+  Proof.
+    intros o s l it p Pa Hin E. unfold p_attr in Pa. destruct (has_obj st o) eqn:Ho; [|discriminate].
+    unfold p_pit in Pa. rewrite Ho in Pa. simpl in Pa. unfold walk_top in Pa.
+    destruct (walk_val st FUEL s [] (VRef o)) as [l0|] eqn:W; simpl in Pa; [|discriminate].
+    injection Pa as <-. apply in_map_iff in Hin as (it0 & <- & Hin0). simpl in E.
+    apply (walk_priors_held st FUEL s [] o l0 it0 p W Hin0 E).
+  Qed.
   Lemma p_attr_local : forall o s, agree st st' o -> p_attr st' o s = p_attr st o s.
   Proof. intros o s A. unfold p_attr. now rewrite (has_obj_local st st' o A), p_pit_local. Qed.
   Lemma p_unique_local : forall o, agree st st' o -> p_unique st' o = p_unique st o.
-  Proof. intros o A. unfold p_unique. now rewrite (has_obj_local st st' o A), p_attr_local. Qed.
+  Proof.
+    intros o A. unfold p_unique. rewrite (has_obj_local st st' o A), p_attr_local by auto.
+    destruct (has_obj st o); [|reflexivity].
+    destruct (p_attr st o SPrior) as [[l|]|e] eqn:Pa; try reflexivity. cbn [rbind r_list].
+    rewrite (dedup_last_ext (pid_of st) (pid_of st') l); [reflexivity|].
+    intros it p Hin E. destruct A as [_ A2]. apply A2. now apply (p_attr_priors o SPrior l it p).
+  Qed.
+  Lemma p_unique_priors : forall o l it p, p_unique st o = Ok (CList l) -> In it l -> snd it = LPrior p -> holds_prior st o p.
+  Proof.
+    intros o l it p Pu Hin E. unfold p_unique in Pu. destruct (has_obj st o); [|discriminate].
+    destruct (p_attr st o SPrior) as [[l0|]|e] eqn:Pa; try discriminate. cbn [rbind r_list] in Pu.
+    injection Pu as <-. apply dedup_last_in in Hin. now apply (p_attr_priors o SPrior l0 it p).
+  Qed.
   Lemma p_count_local : forall o, agree st st' o -> p_count st' o = p_count st o.
   Proof. intros o A. unfold p_count. now rewrite p_unique_local. Qed.
 
@@ -256,9 +395,9 @@ Section Local.
     intros it Hin.
     assert (R : exists c0, snd it = LObj c0 /\ Reach st o c0).
     { unfold p_attr in Pa. rewrite Ho in Pa. unfold p_pit in Pa. rewrite Ho in Pa. simpl in Pa.
-      unfold walk_top in Pa. destruct (walk_val st FUEL SModelRec (VRef o)) as [l0|] eqn:W; simpl in Pa; [|discriminate].
+      unfold walk_top in Pa. destruct (walk_val st FUEL SModelRec [] (VRef o)) as [l0|] eqn:W; simpl in Pa; [|discriminate].
       injection Pa as <-. apply in_map_iff in Hin as (it0 & <- & Hin0). simpl.
-      apply (walk_models_reach st FUEL o l0 it0 W Hin0). }
+      apply (walk_models_reach st FUEL [] o l0 it0 W Hin0). }
     destruct R as (c0 & E & R). unfold mtt_item, item_oid. rewrite E.
     pose proof (agree_trans_reach st st' o c0 A R) as Ac.
     now rewrite kind_of_local, p_count_local.
@@ -271,7 +410,14 @@ Proof.
   intros st st' o k Hi A.
   destruct k; cbn [pure_key];
     [now apply p_pit_local|now apply p_attr_local|now apply p_unique_local| | |now apply p_mtt_local|].
-  - unfold p_ordered. now rewrite (has_obj_local st st' o A), (p_unique_local st st' Hi).
+  - unfold p_ordered. rewrite (has_obj_local st st' o A), (p_unique_local st st' Hi) by auto.
+    destruct (has_obj st o); [|reflexivity].
+    destruct (p_unique st o) as [[l|]|e] eqn:Pu; try reflexivity. cbn [rbind r_list].
+    rewrite (sort_by_ext (item_id_le (pid_of st)) (item_id_le (pid_of st')) l); [reflexivity|].
+    assert (Hid : forall it, In it l -> leaf_id (pid_of st') (snd it) = leaf_id (pid_of st) (snd it)).
+    { intros it Hin. destruct (snd it) as [p|c|oo] eqn:E; simpl; auto. destruct A as [_ A2]. apply A2.
+      now apply (p_unique_priors st o l it p). }
+    intros x y Hx Hy. unfold item_id_le. now rewrite (Hid x Hx), (Hid y Hy).
   - unfold p_direct. destruct (get st o) as [ob|] eqn:G.
     + destruct (agree_get _ _ _ _ A G) as (ob' & G' & _ & At). rewrite G', At.
       now rewrite (direct_items_local st st' d o ob A G).
@@ -368,15 +514,15 @@ Proof.
   destruct (sassoc name (oattrs ob)); [|apply Frm_raise]. apply Frm_modify; intros; auto.
 Qed.
 
-Lemma get_app_old : forall st ext o ob, get st o = Some ob -> get (mkState (heap st ++ ext) (inflight st)) o = Some ob.
+Lemma get_app_old : forall st ext o ob pt, get st o = Some ob -> get (mkState (heap st ++ ext) (inflight st) pt) o = Some ob.
 Proof.
-  intros st ext o ob G. unfold get in *. simpl. rewrite nth_error_app1; auto. apply nth_error_Some. congruence.
+  intros st ext o ob pt G. unfold get in *. simpl. rewrite nth_error_app1; auto. apply nth_error_Some. congruence.
 Qed.
 
-Lemma frame_extend : forall st ext, Forall (fun ob => ocache ob = []) ext ->
-  frame st (mkState (heap st ++ ext) (inflight st)).
+Lemma frame_extend : forall st ext pt, Forall (fun ob => ocache ob = []) ext ->
+  frame st (mkState (heap st ++ ext) (inflight st) pt).
 Proof.
-  intros st ext Hext. split; auto. split.
+  intros st ext pt Hext. split; auto. split.
   - intros o ob G. exists ob. split; auto. now apply get_app_old.
   - intros o ob' G G'. unfold get in *. simpl in G'. apply nth_error_None in G.
     rewrite nth_error_app2 in G' by exact G. apply nth_error_In in G'.
@@ -386,14 +532,33 @@ Qed.
 Lemma Frm_op_new : forall k a ni, Frm (op_new k a ni).
 Proof.
   intros k a ni st. unfold op_new.
-  assert (F : frame st (mkState (heap st ++ [mkObj k a ni false []]) (inflight st))).
+  assert (F : frame st (mkState (heap st ++ [new_obj st k a ni]) (inflight st) (ptab st))).
   { apply frame_extend. constructor; auto. }
   destruct k; simpl; auto. destruct (existsb _ a); simpl; auto. apply frame_refl.
 Qed.
 
+Lemma Frm_set_pid : forall p i, Frm (set_pid p i).
+Proof.
+  intros p i st. unfold set_pid. destruct (nth_error (ptab st) p) as [[j l]|]; simpl; [|apply frame_refl].
+  split; auto. split.
+  - intros o ob G. exists ob. auto.
+  - intros o ob' G G'. unfold get in *. simpl in G'. congruence.
+Qed.
+
+Lemma Frm_op_setitem : forall o key v, Frm (op_setitem o key v).
+Proof.
+  intros. unfold op_setitem. apply Frm_bind; [apply Frm_gets|]. intros [ob|]; [|apply Frm_raise].
+  destruct (okind ob); try apply Frm_raise. destruct (ofrozen ob); [apply Frm_raise|].
+  apply Frm_bind; [apply Frm_gets|]. intros old.
+  apply Frm_bind; [|intros; apply Frm_modify; intros; auto].
+  destruct old as [i|]; [|destruct v; apply Frm_ret].
+  destruct v as [p|c|c]; [apply Frm_set_pid|apply Frm_ret|].
+  apply Frm_bind; [apply Frm_gets|]. intros [|]; [apply Frm_raise|apply Frm_modify; intros; auto].
+Qed.
+
 (* deepcopy only appends objects with empty caches *)
 Definition appends (cs cs' : cstate) : Prop :=
-  exists ext, fst cs' = fst cs ++ ext /\ Forall (fun ob => ocache ob = []) ext.
+  exists ext, cheap cs' = cheap cs ++ ext /\ Forall (fun ob => ocache ob = []) ext.
 
 Lemma appends_refl : forall cs, appends cs cs.
 Proof. intros cs. exists []. split; [now rewrite app_nil_r|constructor]. Qed.
@@ -420,20 +585,24 @@ Proof. induction h as [|a h IH]; intros; simpl; auto. now rewrite IH. Qed.
 Lemma copy_val_appends : forall n v cs, appends cs (fst (copy_val n v cs)).
 Proof.
   induction n as [|n IH]; intros v cs; destruct v as [p|c|c]; simpl; try apply appends_refl.
-  - destruct (nassoc c (snd cs)); apply appends_refl.
-  - destruct (nassoc c (snd cs)); [apply appends_refl|].
-    destruct (nth_error (fst cs) c) as [ob|]; [|apply appends_refl].
-    set (cs1 := (fst cs ++ [with_cache ob []], (c, List.length (fst cs)) :: snd cs)).
+  - destruct (nassoc p (cpmemo cs)); [apply appends_refl|]. destruct (nth_error (cptab cs) p); [|apply appends_refl].
+    simpl. exists []. split; [now rewrite app_nil_r|constructor].
+  - destruct (nassoc c (cmemo cs)); apply appends_refl.
+  - destruct (nassoc p (cpmemo cs)); [apply appends_refl|]. destruct (nth_error (cptab cs) p); [|apply appends_refl].
+    simpl. exists []. split; [now rewrite app_nil_r|constructor].
+  - destruct (nassoc c (cmemo cs)); [apply appends_refl|].
+    destruct (nth_error (cheap cs) c) as [ob|]; [|apply appends_refl].
+    set (cs1 := mkC (cheap cs ++ [with_cache ob []]) ((c, List.length (cheap cs)) :: cmemo cs) (cptab cs) (cpmemo cs)).
     pose proof (copy_attrs_appends (copy_val n) IH (oattrs ob) cs1) as (ext & E & F).
     destruct (copy_attrs (copy_val n) (oattrs ob) cs1) as [cs2 a']. simpl in *.
     exists (with_cache (with_attrs ob a') [] :: ext). split.
-    + rewrite E. unfold cs1. simpl. rewrite <- app_assoc. simpl. apply update_app_mid.
+    + rewrite E. rewrite <- app_assoc. simpl. apply update_app_mid.
     + constructor; auto.
 Qed.
 
 Lemma Frm_op_copy : forall o, Frm (op_copy o).
 Proof.
   intros o st. unfold op_copy.
-  pose proof (copy_val_appends FUEL (VRef o) (heap st, [])) as (ext & E & F).
-  destruct (copy_val FUEL (VRef o) (heap st, [])) as [cs v]. simpl in *. rewrite E. now apply frame_extend.
+  pose proof (copy_val_appends FUEL (VRef o) (mkC (heap st) [] (ptab st) [])) as (ext & E & F).
+  destruct (copy_val FUEL (VRef o) (mkC (heap st) [] (ptab st) [])) as [cs v]. simpl in *. rewrite E. now apply frame_extend.
 Qed.
